@@ -16,6 +16,9 @@ Definition ev_ok (s : st) (e : ev) : Prop :=
   | W i => (i < length (wakers s))%nat
   | Stuck => pp s = PInKernel /\ cq s = 0 /\ sqh s = sqt s /\ all_wakers_finished s
       (* nobody left who could post anything *)
+  | PI => True
+      (* a signal can arrive at any time: at the enter call, while blocked (then the poller is
+         resumed although nothing arrived), and anywhere else it changes nothing *)
   end.
 
 Inductive valid : st -> list ev -> Prop :=
@@ -73,7 +76,8 @@ Definition owed_poller_is_resumable_or_a_waker_is_running : Prop :=
 (** [set_polling(true)] done, [set_polling(false)] not yet: bit 0 of the state is set. *)
 Definition polling_pc (p : ppc) : bool :=
   match p with
-  | PEnterH | PEnterT | PEnterFlags | PInKernel | PWbH | PWbT | PWbTry | PClearPolling => true
+  | PEnterH | PEnterT | PEnterFlags | PInKernel | PWbH | PWbT | PWbTry | PClearPolling
+  | PClearPollingIntr => true
   | _ => false
   end.
 (** ... and [enter] has not returned. *)
@@ -208,8 +212,8 @@ Qed.
 
 (** ** One step at a time *)
 Ltac proj :=
-  cbn [md pstate cap sqh sqt sqo cq holder pp polls aw lh seen wakers wlh owed lost
-       set_p set_lh set_w set_wlh set_holder consume consume_all poll_return
+  cbn [md pstate cap sqh sqt sqo cq holder pp polls aw lh seen wakers wlh psub owed lost
+       set_p set_lh set_w set_wlh set_holder set_psub clear_polling consume consume_all poll_return
        at_pc at_pc_ok call_done wp calls wok
        after_enter_ok pstuck
        polling_pc entering_pc before_pc] in *.
@@ -305,6 +309,11 @@ Proof.
     inv_destruct HI. rewrite Epp in *. unfold Inv; proj.
     splits; try assumption; intros; discriminate.
   - (* PClearPolling: swap(NOT_POLLING) *)
+    inv_destruct HI. rewrite Epp in *. unfold Inv; proj.
+    splits; try assumption; try (intros; discriminate).
+    + unfold NOT_POLLING. lia.
+    + reflexivity.
+  - (* PClearPollingIntr: the same swap, after an interrupted enter *)
     inv_destruct HI. rewrite Epp in *. unfold Inv; proj.
     splits; try assumption; try (intros; discriminate).
     + unfold NOT_POLLING. lia.
@@ -456,16 +465,45 @@ Proof.
     destruct (Inv_blocked_owed s HI Epp Ho) as [H|[H|H]]; [lia|lia|].
     apply (finished_no_committed s Hall H). }
   inv_destruct HI. rewrite Epp in *. unfold Inv; proj.
-  splits; try assumption; try (intros; discriminate).
-  rewrite Hlost, Ho. reflexivity.
+  destruct (psub s =? 0); proj;
+    (splits; try assumption; try (intros; discriminate); rewrite Hlost, Ho; reflexivity).
+Qed.
+
+(** The interrupted enter: the submission work keeps the invariant, and the poller is past its
+    [enter] (nothing is claimed about a poller that is neither before its swap nor entering). *)
+Lemma Inv_pintr s : Inv s -> Inv (pintr s).
+Proof.
+  intros HI. unfold pintr. destruct (pp s) eqn:Epp; try (apply Inv_pstep; exact HI).
+  - (* PEnterT *)
+    pose proof (Inv_syscall_submit s (sqt s - lh s) HI) as HI1.
+    pose proof (syscall_submit_pp s (sqt s - lh s)) as Epp1. rewrite Epp in Epp1.
+    set (s1 := syscall_submit s (sqt s - lh s)) in *. clearbody s1.
+    inv_destruct HI1. rewrite Epp1 in *. unfold Inv; proj.
+    splits; try assumption; intros; discriminate.
+  - (* PEnterFlags *)
+    pose proof (Inv_syscall_submit s 0 HI) as HI1.
+    pose proof (syscall_submit_pp s 0) as Epp1. rewrite Epp in Epp1.
+    set (s1 := syscall_submit s 0) in *. clearbody s1.
+    inv_destruct HI1. rewrite Epp1 in *. unfold Inv; proj.
+    splits; try assumption; intros; discriminate.
+  - (* PInKernel *)
+    assert (HI1 : Inv (match md s with KernelThread => consume_all s | _ => s end))
+      by (destruct (md s); [exact HI|exact HI|apply Inv_consume; exact HI]).
+    assert (Epp1 : pp (match md s with KernelThread => consume_all s | _ => s end) = PInKernel)
+      by (destruct (md s); exact Epp).
+    set (s1 := match md s with KernelThread => consume_all s | _ => s end) in *. clearbody s1.
+    inv_destruct HI1. rewrite Epp1 in *.
+    destruct (0 <? cq s1); [|destruct (psub s =? 0)]; unfold Inv; proj;
+      splits; try assumption; intros; discriminate.
 Qed.
 
 Lemma Inv_step s e : Inv s -> ev_ok s e -> Inv (fst (step s e)).
 Proof.
-  intros HI Hok. destruct e as [|i|].
+  intros HI Hok. destruct e as [|i| |].
   - apply Inv_pstep; exact HI.
   - apply Inv_wstep; exact HI.
   - apply Inv_stuck; assumption.
+  - apply Inv_pintr; exact HI.
 Qed.
 
 Lemma Inv_init m c prefill npolls wcalls : Inv (init m c prefill npolls wcalls).
@@ -639,12 +677,26 @@ Proof.
     + wl2 s i w (at_pc w WAddH1) Epc.
 Qed.
 
+Lemma Inv2_set_p s p : Inv2 s -> Inv2 (set_p s p).
+Proof. intros HI. exact HI. Qed.
+
+Lemma Inv2_pintr s : Inv2 s -> Inv2 (pintr s).
+Proof.
+  intros HI. unfold pintr. destruct (pp s) eqn:Epp; try (apply Inv2_pstep; exact HI).
+  - apply Inv2_set_p, Inv2_syscall_submit; exact HI.
+  - apply Inv2_set_p, Inv2_syscall_submit; exact HI.
+  - assert (HI1 : Inv2 (match md s with KernelThread => consume_all s | _ => s end))
+      by (destruct (md s); [exact HI|exact HI|apply Inv2_consume_some; exact HI]).
+    destruct (0 <? cq _); [|destruct (psub s =? 0)]; exact HI1.
+Qed.
+
 Lemma Inv2_step s e : Inv2 s -> Inv2 (fst (step s e)).
 Proof.
-  intros HI. destruct e as [|i|]; cbn [step fst].
+  intros HI. destruct e as [|i| |]; cbn [step fst].
   - apply Inv2_pstep; exact HI.
   - apply Inv2_wstep; exact HI.
   - destruct (pp s); exact HI.
+  - apply Inv2_pintr; exact HI.
 Qed.
 
 Lemma Inv2_init m c prefill npolls wcalls : Inv2 (init m c prefill npolls wcalls).
@@ -712,7 +764,8 @@ Definition ppc_eqb (a b : ppc) : bool :=
   match a, b with
   | PIdle, PIdle | PLoadCqT, PLoadCqT | PSetPolling, PSetPolling | PEnterH, PEnterH
   | PEnterT, PEnterT | PEnterFlags, PEnterFlags | PInKernel, PInKernel | PWbH, PWbH
-  | PWbT, PWbT | PWbTry, PWbTry | PClearPolling, PClearPolling | PLoadCqT2, PLoadCqT2
+  | PWbT, PWbT | PWbTry, PWbTry | PClearPolling, PClearPolling
+  | PClearPollingIntr, PClearPollingIntr | PLoadCqT2, PLoadCqT2
   | PStoreHead, PStoreHead | PEndWbH, PEndWbH | PEndWbT, PEndWbT | PEndWbTry, PEndWbTry => true
   | _, _ => false
   end.
@@ -728,6 +781,7 @@ Definition ev_okb (s : st) (e : ev) : bool :=
   | W i => Nat.ltb i (length (wakers s))
   | Stuck => ppc_eqb (pp s) PInKernel && (cq s =? 0) && (sqh s =? sqt s)
              && forallb waker_finished (wakers s)
+  | PI => true
   end.
 
 Fixpoint validb (s : st) (es : list ev) : bool :=
@@ -749,7 +803,7 @@ Qed.
 
 Lemma ev_okb_sound s e : ev_okb s e = true -> ev_ok s e.
 Proof.
-  destruct e as [|i|]; cbn [ev_okb ev_ok]; intros H.
+  destruct e as [|i| |]; cbn [ev_okb ev_ok]; intros H; [| | |exact I].
   - intros Epp. rewrite Epp in H. cbn [ppc_eqb negb orb] in H.
     apply orb_true_iff in H. destruct H as [H|H]; [left; apply N.ltb_lt; exact H|].
     apply andb_true_iff in H. destruct H as [H1 H2]. right.
@@ -932,6 +986,354 @@ Proof.
   split; [vm_compute; reflexivity|]. split; [vm_compute; reflexivity|].
   split; [exact Hfin|].
   split; [|repeat split; vm_compute; reflexivity].
+  split; [vm_compute; reflexivity|]. split; [vm_compute; reflexivity|].
+  split; [vm_compute; reflexivity|exact Hfin].
+Qed.
+
+(** ** The poller's [io_uring_enter] interrupted by a signal (EINTR) *)
+
+(** Poller steps (upper bound) from a point after [enter] to the return of the poll in
+    progress. [None]: the points before and inside [enter] (in particular [PInKernel]). *)
+Definition ret_dist (p : ppc) : option nat :=
+  match p with
+  | PWbH => Some 9%nat | PWbT => Some 8%nat | PWbTry => Some 7%nat
+  | PClearPolling | PClearPollingIntr => Some 6%nat
+  | PLoadCqT2 => Some 5%nat | PStoreHead => Some 4%nat
+  | PEndWbH => Some 3%nat | PEndWbT => Some 2%nat | PEndWbTry => Some 1%nat
+  | _ => None
+  end.
+
+Definition is_poller_ev (e : ev) : bool := match e with P | PI => true | _ => false end.
+Definition poller_events (es : list ev) : nat := length (filter is_poller_ev es).
+
+(** An interrupted enter makes the poll return. Whatever the state [s] in which the poller is at
+    (or blocked inside) its [io_uring_enter] and whatever follows the interruption ([es]: any
+    events at all — waker steps, further signals; no validity assumed): the poll in progress
+    has returned ([polls] went down), or the poller is on the straight way to the return — past
+    [enter], not blocked, at most [9 - (poller steps made)] poller steps away (6 when the call
+    failed with EINTR; 9 when a blocked call that had submitted something, or that finds a
+    completion by now, reports success and runs [wake_blocked_futures] first). After 9 poller
+    steps the poll has returned, having cleared what was owed. *)
+Definition interrupted_enter_makes_poll_return : Prop :=
+  forall s n es,
+    (pp s = PEnterT \/ pp s = PEnterFlags \/ pp s = PInKernel) -> polls s = S n ->
+    let s0 := fst (step s PI) in
+    ((pp s = PEnterT \/ pp s = PEnterFlags) -> pp s0 = PClearPollingIntr /\ polls s0 = S n)
+    /\ (let s1 := fst (run step s0 es) in
+        (polls s1 <= n)%nat
+        \/ (polls s1 = S n /\ pp s1 <> PInKernel
+            /\ exists d, ret_dist (pp s1) = Some d /\ (d + poller_events es <= 9)%nat)).
+
+(** ... and when it returns nothing is owed any more (the ghost is cleared by the return only). *)
+Definition poll_return_clears_owed : Prop :=
+  forall s e, polls (fst (step s e)) <> polls s -> owed (fst (step s e)) = false.
+
+Lemma run_cons_fst {S E O : Type} (stp : S -> E -> S * list O) s e es :
+  fst (run stp s (e :: es)) = fst (run stp (fst (stp s e)) es).
+Proof.
+  cbn [run]. destruct (stp s e) as [s1 o1]. cbn [fst]. destruct (run stp s1 es); reflexivity.
+Qed.
+
+(** Waker steps touch neither the poller's pc nor its poll count. *)
+Lemma wstep_pp_polls s i : pp (wstep s i) = pp s /\ polls (wstep s i) = polls s.
+Proof.
+  unfold wstep. destruct (nth_error (wakers s) i) as [w|]; [|split; reflexivity].
+  destruct (wp w);
+    repeat match goal with
+           | |- context [match ?x with _ => _ end] => destruct x
+           | |- context [if ?x then _ else _] => destruct x
+           end;
+    try (split; reflexivity);
+    unfold set_w; cbn [pp polls]; try rewrite syscall_submit_pp; split; try reflexivity;
+    unfold syscall_submit, consume_all; destruct (md s); reflexivity.
+Qed.
+
+Lemma enter_wait_polls s k : polls (enter_wait s k) = polls s.
+Proof.
+  unfold enter_wait. destruct (0 <? cq s); [|destruct (aw s); [destruct (0 <? k)|]]; reflexivity.
+Qed.
+
+Lemma syscall_submit_polls s k : polls (syscall_submit s k) = polls s.
+Proof. unfold syscall_submit, consume_all. destruct (md s); reflexivity. Qed.
+
+Lemma pstep_polls_le s : (polls (pstep s) <= polls s)%nat.
+Proof.
+  unfold pstep. destruct (pp s);
+    try (cbn [polls set_p set_lh clear_polling poll_return]; lia).
+  - destruct (polls s) eqn:E; cbn [polls set_p]; lia.
+  - destruct (0 <? cq s); cbn [polls set_p]; lia.
+  - rewrite enter_wait_polls, syscall_submit_polls. lia.
+  - rewrite enter_wait_polls, syscall_submit_polls. lia.
+  - destruct (md s); destruct (0 <? cq _); cbn [polls after_enter_ok set_p consume_all consume]; lia.
+  - destruct (sq_full s (lh s)); cbn [polls set_p]; lia.
+  - destruct (sq_full s (lh s)); cbn [polls set_p poll_return]; lia.
+Qed.
+
+Lemma pintr_polls_le s : (polls (pintr s) <= polls s)%nat.
+Proof.
+  unfold pintr. destruct (pp s) eqn:Epp; try apply pstep_polls_le.
+  - cbn [polls set_p]. rewrite syscall_submit_polls. lia.
+  - cbn [polls set_p]. rewrite syscall_submit_polls. lia.
+  - destruct (md s); destruct (0 <? cq _); try destruct (psub s =? 0);
+      cbn [polls after_enter_ok set_p consume_all consume]; lia.
+Qed.
+
+Lemma step_polls_le s e : (polls (fst (step s e)) <= polls s)%nat.
+Proof.
+  destruct e as [|i| |]; cbn [step fst].
+  - apply pstep_polls_le.
+  - destruct (wstep_pp_polls s i) as [_ E]. rewrite E. lia.
+  - destruct (pp s); try lia. unfold pstuck. cbn [polls]. lia.
+  - apply pintr_polls_le.
+Qed.
+
+Lemma run_polls_le es : forall s, (polls (fst (run step s es)) <= polls s)%nat.
+Proof.
+  induction es as [|e es IH]; intros s; [cbn [run fst]; lia|].
+  rewrite run_cons_fst. specialize (IH (fst (step s e))). pose proof (step_polls_le s e). lia.
+Qed.
+
+(** One poller step on the way out: the poll returns, or the distance shrinks. *)
+Lemma pstep_ret_dist s n d :
+  polls s = S n -> ret_dist (pp s) = Some d ->
+  polls (pstep s) = n
+  \/ (polls (pstep s) = S n /\ exists d', ret_dist (pp (pstep s)) = Some d' /\ (S d' <= d)%nat).
+Proof.
+  intros Hn Hd. unfold pstep. destruct (pp s); try discriminate Hd;
+    injection Hd as <-.
+  - right. cbn [polls pp set_p set_lh ret_dist]. split; [exact Hn|]. eexists; split; [reflexivity|lia].
+  - right. destruct (sq_full s (lh s)); cbn [polls pp set_p ret_dist];
+      (split; [exact Hn|]); eexists; (split; [reflexivity|lia]).
+  - right. cbn [polls pp set_p ret_dist]. split; [exact Hn|]. eexists; split; [reflexivity|lia].
+  - right. cbn [polls pp clear_polling ret_dist]. split; [exact Hn|]. eexists; split; [reflexivity|lia].
+  - right. cbn [polls pp clear_polling ret_dist]. split; [exact Hn|]. eexists; split; [reflexivity|lia].
+  - right. cbn [polls pp ret_dist]. split; [exact Hn|]. eexists; split; [reflexivity|lia].
+  - right. cbn [polls pp ret_dist]. split; [exact Hn|]. eexists; split; [reflexivity|lia].
+  - right. cbn [polls pp set_p set_lh ret_dist]. split; [exact Hn|]. eexists; split; [reflexivity|lia].
+  - destruct (sq_full s (lh s)).
+    + left. cbn [polls poll_return]. rewrite Hn. reflexivity.
+    + right. cbn [polls pp set_p ret_dist]. split; [exact Hn|]. eexists; split; [reflexivity|lia].
+  - left. cbn [polls poll_return]. rewrite Hn. reflexivity.
+Qed.
+
+Lemma pintr_is_pstep_after_enter s d : ret_dist (pp s) = Some d -> pintr s = pstep s.
+Proof. intros Hd. unfold pintr. destruct (pp s); try discriminate Hd; reflexivity. Qed.
+
+Lemma way_out_returns n es : forall s d,
+  polls s = S n -> ret_dist (pp s) = Some d ->
+  let s1 := fst (run step s es) in
+  (polls s1 <= n)%nat
+  \/ (polls s1 = S n /\ exists d', ret_dist (pp s1) = Some d' /\ (d' + poller_events es <= d)%nat).
+Proof.
+  induction es as [|e es IH]; intros s d Hn Hd; cbv zeta.
+  - right. cbn [run fst]. split; [exact Hn|]. exists d. split; [exact Hd|unfold poller_events; cbn [filter length]; lia].
+  - rewrite run_cons_fst.
+    assert (Hp : forall s', (s' = pstep s) -> is_poller_ev e = true ->
+              fst (step s e) = s' ->
+              (polls (fst (run step (fst (step s e)) es)) <= n)%nat
+              \/ (polls (fst (run step (fst (step s e)) es)) = S n
+                  /\ exists d', ret_dist (pp (fst (run step (fst (step s e)) es))) = Some d'
+                                /\ (d' + poller_events (e :: es) <= d)%nat)).
+    { intros s' -> He Hs. rewrite Hs. unfold poller_events. cbn [filter]. rewrite He. cbn [length].
+      destruct (pstep_ret_dist s n d Hn Hd) as [Hr|(Hn' & d' & Hd' & Hle)].
+      - left. pose proof (run_polls_le es (pstep s)). lia.
+      - destruct (IH (pstep s) d' Hn' Hd') as [H|(H1 & d'' & H2 & H3)]; [left; exact H|right].
+        split; [exact H1|]. exists d''. split; [exact H2|]. unfold poller_events in H3. lia. }
+    destruct e as [|i| |].
+    + apply (Hp (pstep s)); reflexivity.
+    + cbn [step fst]. destruct (wstep_pp_polls s i) as [E1 E2].
+      rewrite <- E2 in Hn. rewrite <- E1 in Hd.
+      destruct (IH (wstep s i) d Hn Hd) as [H|(H1 & d' & H2 & H3)]; [left; exact H|right].
+      split; [exact H1|]. exists d'. split; [exact H2|exact H3].
+    + assert (Es : fst (step s Stuck) = s)
+        by (cbn [step fst]; destruct (pp s); try reflexivity; discriminate Hd).
+      rewrite Es.
+      destruct (IH s d Hn Hd) as [H|(H1 & d' & H2 & H3)]; [left; exact H|right].
+      split; [exact H1|]. exists d'. split; [exact H2|exact H3].
+    + apply (Hp (pstep s)); try reflexivity.
+      cbn [step fst]. apply (pintr_is_pstep_after_enter s d Hd).
+Qed.
+
+Lemma interrupted_enter_makes_poll_return_holds : interrupted_enter_makes_poll_return.
+Proof.
+  intros s n es Hpc Hn. cbv zeta. cbn [step fst].
+  assert (Hd : exists d, ret_dist (pp (pintr s)) = Some d /\ (d <= 9)%nat /\ polls (pintr s) = S n).
+  { unfold pintr. destruct Hpc as [E|[E|E]]; rewrite E.
+    - exists 6%nat. cbn [pp polls set_p ret_dist]. rewrite syscall_submit_polls. repeat split; [lia|exact Hn].
+    - exists 6%nat. cbn [pp polls set_p ret_dist]. rewrite syscall_submit_polls. repeat split; [lia|exact Hn].
+    - assert (Hn1 : polls (match md s with KernelThread => consume_all s | _ => s end) = S n)
+        by (destruct (md s); exact Hn).
+      set (s1 := match md s with KernelThread => consume_all s | _ => s end) in *. clearbody s1.
+      destruct (0 <? cq s1); [|destruct (psub s =? 0)]; cbn [pp polls after_enter_ok set_p ret_dist].
+      + exists 9%nat. repeat split; [lia|exact Hn1].
+      + exists 6%nat. repeat split; [lia|exact Hn1].
+      + exists 9%nat. repeat split; [lia|exact Hn1]. }
+  split.
+  - intros [E|E]; unfold pintr; rewrite E; cbn [pp polls set_p]; rewrite syscall_submit_polls;
+      split; [reflexivity|exact Hn|reflexivity|exact Hn].
+  - destruct Hd as (d & Hd & Hle & Hn').
+    destruct (way_out_returns n es (pintr s) d Hn' Hd) as [H|(H1 & d' & H2 & H3)]; [left; exact H|right].
+    split; [exact H1|]. split; [intros E; rewrite E in H2; discriminate H2|].
+    exists d'. split; [exact H2|lia].
+Qed.
+
+Lemma pstep_return_clears_owed s : polls (pstep s) <> polls s -> owed (pstep s) = false.
+Proof.
+  unfold pstep. destruct (pp s);
+    try (cbn [polls set_p set_lh clear_polling]; intros H; exfalso; apply H; reflexivity);
+    try reflexivity.
+  - destruct (polls s) eqn:E; cbn [polls set_p]; intros H; exfalso; apply H; congruence.
+  - destruct (0 <? cq s); cbn [polls set_p]; intros H; exfalso; apply H; reflexivity.
+  - rewrite enter_wait_polls, syscall_submit_polls. intros H; exfalso; apply H; reflexivity.
+  - rewrite enter_wait_polls, syscall_submit_polls. intros H; exfalso; apply H; reflexivity.
+  - destruct (md s); destruct (0 <? cq _); cbn [polls after_enter_ok set_p consume_all consume];
+      intros H; exfalso; apply H; reflexivity.
+  - destruct (sq_full s (lh s)); cbn [polls set_p]; intros H; exfalso; apply H; reflexivity.
+  - destruct (sq_full s (lh s)); [reflexivity|].
+    cbn [polls set_p]; intros H; exfalso; apply H; reflexivity.
+Qed.
+
+Lemma poll_return_clears_owed_holds : poll_return_clears_owed.
+Proof.
+  intros s e. destruct e as [|i| |]; cbn [step fst].
+  - apply pstep_return_clears_owed.
+  - destruct (wstep_pp_polls s i) as [_ E]. rewrite E. intros H; exfalso; apply H; reflexivity.
+  - destruct (pp s); intros H; exfalso; apply H; reflexivity.
+  - unfold pintr. destruct (pp s) eqn:Epp; try apply pstep_return_clears_owed.
+    + cbn [polls set_p]. rewrite syscall_submit_polls. intros H; exfalso; apply H; reflexivity.
+    + cbn [polls set_p]. rewrite syscall_submit_polls. intros H; exfalso; apply H; reflexivity.
+    + destruct (md s); destruct (0 <? cq _); try destruct (psub s =? 0);
+        cbn [polls after_enter_ok set_p consume_all consume]; intros H; exfalso; apply H; reflexivity.
+Qed.
+
+(** ** Non-vacuity of the interrupted enter, and what a retrying poll would lose *)
+
+(** A wake() before the poll (nobody polling: only the awoken bit is set, no message), then the
+    poll; its first [io_uring_enter] (zero timeout: [set_polling(true)] reported "awoken") is
+    interrupted. *)
+Definition eintr_schedule : list ev :=
+  [W 0]                                                 (* fetch_or: 00 -> 10; the call is done *)
+  ++ [P; P; P; P]                                       (* loads, set_polling(true): awoken; load SQ head *)
+  ++ [PI]                                               (* load SQ tail + io_uring_enter: EINTR *)
+  ++ [P; P; P; P; P; P].                                (* the code as it is: swap(NOT_POLLING), reload, store head,
+                                                           end-of-poll wake_blocked_futures, return *)
+
+(** The code as it is: the poll returns, nothing is owed. In each mode. *)
+Definition interrupted_then_returns (m : mode) : Prop :=
+  valid (init m 8 0 1 [1%nat]) eintr_schedule
+  /\ (let s := fst (run step (init m 8 0 1 [1%nat]) (firstn 5 eintr_schedule)) in
+      (pp s = PEnterT \/ pp s = PEnterFlags) /\ aw s = true /\ owed s = true
+      /\ pstate s = IS_POLLING /\ cq s = 0 /\ all_wakers_finished s)
+  /\ (let s := fst (run step (init m 8 0 1 [1%nat]) (firstn 6 eintr_schedule)) in
+      pp s = PClearPollingIntr /\ owed s = true)
+  /\ (let s := fst (run step (init m 8 0 1 [1%nat]) eintr_schedule) in
+      pp s = PIdle /\ polls s = O /\ pstate s = NOT_POLLING /\ owed s = false /\ lost s = false).
+
+(** Kernel-thread mode has one load less before the call (flags instead of head + tail). *)
+Definition eintr_schedule_kthread : list ev :=
+  [W 0] ++ [P; P; P] ++ [PI] ++ [P; P; P; P; P; P].
+
+Example eintr_example_default : interrupted_then_returns Default.
+Proof.
+  unfold interrupted_then_returns. cbv zeta.
+  split; [apply validb_sound; vm_compute; reflexivity|].
+  split; [split; [left; vm_compute; reflexivity|]; repeat split; try (vm_compute; reflexivity);
+          apply all_wakers_finished_b; vm_compute; reflexivity|].
+  split; vm_compute; repeat split; reflexivity.
+Qed.
+
+Example eintr_example_single : interrupted_then_returns SingleIssuer.
+Proof.
+  unfold interrupted_then_returns. cbv zeta.
+  split; [apply validb_sound; vm_compute; reflexivity|].
+  split; [split; [left; vm_compute; reflexivity|]; repeat split; try (vm_compute; reflexivity);
+          apply all_wakers_finished_b; vm_compute; reflexivity|].
+  split; vm_compute; repeat split; reflexivity.
+Qed.
+
+Example eintr_example_kthread :
+  valid (init KernelThread 8 0 1 [1%nat]) eintr_schedule_kthread
+  /\ (let s := fst (run step (init KernelThread 8 0 1 [1%nat]) (firstn 4 eintr_schedule_kthread)) in
+      pp s = PEnterFlags /\ aw s = true /\ owed s = true /\ pstate s = IS_POLLING /\ cq s = 0)
+  /\ (let s := fst (run step (init KernelThread 8 0 1 [1%nat]) eintr_schedule_kthread) in
+      pp s = PIdle /\ polls s = O /\ pstate s = NOT_POLLING /\ owed s = false /\ lost s = false).
+Proof.
+  cbv zeta. split; [apply validb_sound; vm_compute; reflexivity|].
+  split; vm_compute; repeat split; reflexivity.
+Qed.
+
+(** A signal while the poll is blocked, nothing owed: the poll returns as well (and the next one
+    blocks again: nobody wakes it, nothing is owed, the scheduler may report it stuck). *)
+Example eintr_example_blocked :
+  let s0 := init Default 8 0 2 [] in
+  let es := [P; P; P; P; P] ++ [PI] ++ [P; P; P; P; P; P] ++ [P; P; P; P; P] ++ [Stuck] in
+  valid s0 es
+  /\ (let s := fst (run step s0 (firstn 5 es)) in pp s = PInKernel /\ psub s = 0 /\ polls s = 2%nat)
+  /\ (let s := fst (run step s0 (firstn 6 es)) in pp s = PClearPollingIntr)
+  /\ (let s := fst (run step s0 (firstn 12 es)) in pp s = PIdle /\ polls s = 1%nat)
+  /\ (let s := fst (run step s0 es) in polls s = 1%nat /\ owed s = false /\ lost s = false).
+Proof.
+  cbv zeta. split; [apply validb_sound; vm_compute; reflexivity|].
+  repeat split; vm_compute; reflexivity.
+Qed.
+
+(** Validity of a schedule for the retrying variant (same [ev_ok]). *)
+Inductive valid_loop : st -> list ev -> Prop :=
+  | valid_loop_nil s : valid_loop s []
+  | valid_loop_cons s e es : ev_ok s e -> valid_loop (fst (step_loop s e)) es -> valid_loop s (e :: es).
+
+Fixpoint valid_loopb (s : st) (es : list ev) : bool :=
+  match es with
+  | [] => true
+  | e :: r => ev_okb s e && valid_loopb (fst (step_loop s e)) r
+  end.
+
+Lemma valid_loopb_sound es : forall s, valid_loopb s es = true -> valid_loop s es.
+Proof.
+  induction es as [|e es IH]; intros s H; [constructor|].
+  cbn [valid_loopb] in H. apply andb_true_iff in H. destruct H as [H1 H2].
+  constructor; [apply ev_okb_sound; exact H1|apply IH; exact H2].
+Qed.
+
+(** The same beginning; the retrying poll runs [set_polling(true)] again (not awoken any more: the
+    first swap consumed the bit), enters without a timeout and blocks. *)
+Definition eintr_retry_schedule : list ev :=
+  [W 0] ++ [P; P; P; P] ++ [PI]
+  ++ [P]                                                (* swap(NOT_POLLING) ... and around again *)
+  ++ [P; P; P].                                         (* set_polling(true): not awoken; head; tail + enter: blocks *)
+
+(** Refuted for a poll that waits again after EINTR (seeded change C11-e; NOT the code as it
+    is): a valid interleaving — one wake() before the only poll, the poll's first enter
+    interrupted — after which the poller is blocked with both queues empty, every waker finished
+    and the wake-up still owed (no poll has returned since the wake): the scheduler's "stuck" is
+    admissible and the wake-up is lost. The code as it is returns on the same events
+    ([eintr_example_default]). *)
+Definition eintr_retry_loses_wakeup : Prop :=
+  exists es,
+    valid_loop (init Default 8 0 1 [1%nat]) es
+    /\ nth_error es 0 = Some (W 0) /\ nth_error es 5 = Some PI
+    /\ (let s := fst (run step_loop (init Default 8 0 1 [1%nat]) (firstn 5 es)) in
+        pp s = PEnterT /\ aw s = true /\ owed s = true)
+    /\ (let s := fst (run step_loop (init Default 8 0 1 [1%nat]) es) in
+        pp s = PInKernel /\ polls s = 1%nat /\ aw s = false /\ pstate s = IS_POLLING
+        /\ cq s = 0 /\ sqh s = sqt s /\ all_wakers_finished s
+        /\ owed s = true /\ ev_ok s Stuck
+        /\ lost (fst (step_loop s Stuck)) = true).
+
+Lemma eintr_retry_loses_wakeup_refuted : eintr_retry_loses_wakeup.
+Proof.
+  exists eintr_retry_schedule. cbv zeta.
+  split; [apply valid_loopb_sound; vm_compute; reflexivity|].
+  split; [reflexivity|]. split; [reflexivity|].
+  split; [vm_compute; repeat split; reflexivity|].
+  assert (Hfin : all_wakers_finished
+                   (fst (run step_loop (init Default 8 0 1 [1%nat]) eintr_retry_schedule)))
+    by (apply all_wakers_finished_b; vm_compute; reflexivity).
+  split; [vm_compute; reflexivity|]. split; [vm_compute; reflexivity|].
+  split; [vm_compute; reflexivity|]. split; [vm_compute; reflexivity|].
+  split; [vm_compute; reflexivity|]. split; [vm_compute; reflexivity|].
+  split; [exact Hfin|]. split; [vm_compute; reflexivity|].
+  split; [|vm_compute; reflexivity].
   split; [vm_compute; reflexivity|]. split; [vm_compute; reflexivity|].
   split; [vm_compute; reflexivity|exact Hfin].
 Qed.
